@@ -173,7 +173,7 @@ def run(ck):
         cases = [rp["case"]] if "case" in rp else list(rp.get("cases", []))
         reps = 5
     else:
-        cases = list(REFUTED_CASES) + [gen_script(rng, ck.thorough) for _ in range(400 if ck.thorough else 45)]
+        cases = list(REFUTED_CASES) + [gen_script(rng, ck.thorough) for _ in range(2500 if ck.thorough else 45)]
         reps = 1
     hist = {"refuted_schedule_cases": 0, "stress_scripts": 0, "threads": 0, "events": 0, "finds": 0, "hits": 0}
     mlines, midx = [], []
